@@ -429,6 +429,10 @@ def run(ctx):
     install()
     FULL = True
     rng = ctx.rng
+    from rv.props import concurrent_jobs
+
+    concurrent_jobs.run_some(ctx, "C06")        # the same calls from a thread pool (rv/core/threads.py)
+    ctx.must_monitors.append("concurrent_calls")
     ctx.rule = ("ordered geometry pairs over all 81 type combinations x placement {identical, nested, partial, touching, time-disjoint, far} x buffer class; "
                 "non-trivial = the two geometries differ or have different types; distinct = distinct (g1, g2, buffers)")
     ctx.assumptions += ["valid, non-self-intersecting geometries; buffers strictly positive when a 0/1-D geometry takes part",
@@ -479,6 +483,25 @@ def run(ctx):
                     seen_pairs.add((t1, t2))
                     ctx.case((t1, t2, placement, bname), {"g1": s1, "g2": s2, "tb": tb, "fb": fb}, nontrivial=(s1 != s2))
                     judge(ctx, s1, s2, tb, fb)
+    # long contours (a pitch track sampled every few milliseconds) against geometries that meet only their last stretch
+    if ctx.shard == 0 or ctx.thorough:
+        for nv in (300, 600, 1001, 2000):
+            t0 = rng.choice([1.0, 30.0])
+            pts = [[t0 + 0.004 * i, 2000.0 + 800.0 * math.sin(i / 7.0)] for i in range(nv - 1)]
+            tail = rng.choice([0.004, 0.5, 2.0])
+            pts.append([pts[-1][0] + tail, 2400.0])
+            line = {"type": "LineString", "coordinates": pts}
+            mline = {"type": "MultiLineString", "coordinates": [pts[: nv // 3], pts[nv // 3:]]}
+            end = pts[-1][0]
+            others = [{"type": "TimeInterval", "coordinates": [end - tail * 0.75, end + 0.5]}, {"type": "TimeStamp", "coordinates": end},
+                      {"type": "BoundingBox", "coordinates": [end - tail * 0.5, 1000.0, end + 1.0, 4000.0]},
+                      {"type": "TimeInterval", "coordinates": [t0, end]}]
+            for g1 in (line, mline):
+                for g2 in others:
+                    for tb, fb in ((0.01, 100.0), (0.001, 10.0)):
+                        a, b = (g1, g2) if rng.random() < 0.5 else (g2, g1)
+                        ctx.case((a["type"], b["type"], "long_contour", nv), {"g1": {"type": g1["type"], "n_vertices": nv, "tail": tail}, "g2": g2, "tb": tb, "fb": fb})
+                        judge(ctx, a, b, tb, fb)
     # zero-extent intervals and boxes (an annotator's click-and-release; a tonal call drawn as a flat box) against every
     # type, inside / on the edge of / away from the other geometry's extent
     for t2 in geoms.TYPES:
